@@ -194,3 +194,15 @@ Proof.
     cbv zeta in Hp. cbn [mcnp_surface]. rewrite Hp. eexists. split; [reflexivity|].
     exact p3_guard_example.
 Qed.
+
+(* the number whose sign the harness compares with its Python reference
+   (Spec.sense_value, tie spec-fM) has exactly the sign of the MCNP sense used
+   in the theorems *)
+Lemma sense_value_sign (ms : msurfR) p :
+  (sense_value RS ms p < 0 <-> neg_sense ms p) /\ (0 < sense_value RS ms p <-> pos_sense ms p).
+Proof.
+  unfold sense_value, neg_sense, pos_sense. destruct (m_sheet ms) as [g|]; cbn.
+  - destruct (Rltb (m_f ms p) (- g p)) eqn:E;
+      [apply Rltb_true in E | apply Rltb_false in E]; split; split; intros H; lra.
+  - split; split; intros H; tauto || lra.
+Qed.
